@@ -475,7 +475,7 @@ def intToB64(i, l=1):
     """
     d = deque()  # deque of characters base64
 
-    while l:
+    while l or i:  # when l == 0 still need enough chars to represent nonzero i
         d.appendleft(B64ChrByIdx[i % 64])
         i = i // 64
         if not i:
